@@ -508,3 +508,42 @@ func VerifC17_begin_block_failure_is_reported_without_records() {
 	}
 	verifReach("C17/begin/end")
 }
+
+// Per-record state does not leak into later records: a `filter` statement decides about the CURRENT
+// record only ("mlr put 'filter NR==2 || NR==3'" ≡ "mlr filter 'NR==2 || NR==3'",
+// reference-dsl-filter-statements.md), a record for which no filter statement runs is emitted, and
+// locals start absent on every record.  Three records with symbolic x in [0,2] each.
+//verif:opts engine-only maxpaths=50000 unwind=200
+func VerifC14_dsl_per_record_state() {
+	var xs [3]int64
+	recs := []*mlrval.Mlrmap{}
+	for i := range xs {
+		xs[i] = verifInt64("x")
+		verifAssume(xs[i] >= 0 && xs[i] <= 2)
+		recs = append(recs, c14Record(xs[i]))
+	}
+	progs := []string{
+		verifDSL(`if ($x == 1) { filter false }`),
+		verifDSL(`$x == 1 { filter false } $x == 2 { filter true }`),
+		verifDSL(`filter $x != 1; $y = 1`),
+		verifDSL(`if ($x == 1) { y = 5 } else { $seen = is_absent(y) } if ($x == 1) { filter false }`),
+	}
+	tr := verifPut(progs[verifChoice("program", len(progs))])
+	out := verifPutRun(tr, recs)
+	pos := 0
+	for i := range xs {
+		if xs[i] == 1 {
+			continue
+		}
+		verifAssert(pos < len(out), "C14/dsl/per-record/a-record-no-filter-statement-excludes-is-emitted")
+		if pos < len(out) {
+			c14IntIs(out[pos], "x", xs[i], "C14/dsl/per-record/emitted-in-input-order")
+			if v, ok := c14Str(out[pos], "seen"); ok {
+				verifAssert(v == "true", "C14/dsl/per-record/locals-start-absent-on-every-record")
+			}
+		}
+		pos++
+	}
+	verifAssert(len(out) == pos, "C14/dsl/per-record/filter-false-excludes-exactly-the-current-record")
+	verifReach("C14/dsl/per-record/end")
+}
